@@ -14,6 +14,7 @@
 //! seeded yields, with and without a sidecar thread that jumps the counter
 //! *during* the compilations.
 mod inputs;
+mod ties;
 
 use inputs::Input;
 use serde_json::{json, Value};
@@ -437,7 +438,14 @@ pub fn run(ctx: &mut Ctx, args: &Args) {
                 ctx.sample_by_kind(inp.kind, json!({"input": inp.name, "output_len": b.len(), "objects": objects,
                                                     "stage_trace": run.trace, "output_digest": format!("{:016x}", digest),
                                                     "schedules": "reference, repeat, histories k in {0,1,7,1000}, counter jumps, 16-thread rounds, cross-process"}));
-                input_table.push(json!({"name": inp.name, "kind": inp.kind, "output_len": b.len(), "objects": objects,
+                let described = inp.describe.map(|f| f(&b));
+                if let Some(d) = &described {
+                    ctx.label("ties:what_the_packer_did", &format!("{}: {} [{}]", inp.name, d, run.trace));
+                }
+                if inp.name.starts_with("ties:") {
+                    ctx.count("inputs_with_deliberate_ties", 1);
+                }
+                input_table.push(json!({"name": inp.name, "kind": inp.kind, "output_len": b.len(), "objects": objects, "described": described,
                                         "declared_hashed": inp.declared_hashed, "trace": run.trace, "nontrivial": nontrivial,
                                         "reference_ms": (t_ref.elapsed().as_secs_f64() * 1000.0).round()}));
                 chk.refs.push(Some(Ref {
